@@ -1,3 +1,4 @@
+import Gen.HashMapGen
 /-!
 # Executable model of `asl::HashMap<K,T>`, `asl::HashDic<T>` and `asl::Set<T>`
 (include/asl/HashMap.h, include/asl/Set.h) — core Lean only
@@ -6,9 +7,12 @@
 heads.  The model keeps the chain heads as `buckets : List (List (K × V))` (a chain = its nodes in `next`
 order) and the count as `n`.  The hash function `h` is a *parameter* (low 32 bits of `hash(key)` as a
 natural number), so the theorems cover every collision pattern; the driver instantiates it with the two
-`hash` overloads the harness uses.  Functions transcribe what the C++ members do.
+`hash` overloads the harness uses.  Functions transcribe what the C++ members do.  The constants (default
+size, growth rule, hash multiplier, `nextPoT` shifts) come from `Gen/HashMapGen.lean`, regenerated from
+`include/asl/HashMap.h` on every run.
 -/
 namespace AslModel.HashMap
+open Gen.HashMap (hashMul defaultBuckets growNum growDen growFactor maxSlots skip potShifts)
 
 structure HM (K V : Type) where
   buckets : List (List (K × V))
@@ -17,17 +21,12 @@ deriving Repr
 
 variable {K V : Type} [DecidableEq K]
 
-/-- `nextPoT(int n)` for `1 ≤ n ≤ 2^30` (bit smearing) -/
+/-- `nextPoT(int n)` for `1 ≤ n ≤ 2^30`: `n--; n |= n >> k` for every regenerated shift `k`; `n + 1`.
+(For `n = 0` the C++ `int` wraps to a 0-bucket table; the model gives 1 — outside the generated range.) -/
 def nextPoT (n : Nat) : Nat :=
-  let n := n - 1
-  let n := n ||| (n >>> 1)
-  let n := n ||| (n >>> 2)
-  let n := n ||| (n >>> 4)
-  let n := n ||| (n >>> 8)
-  let n := n ||| (n >>> 16)
-  n + 1
+  potShifts.foldl (fun n k => n ||| (n >>> k)) (n - 1) + 1
 
-/-- `HashMap()` (256 buckets) / `HashMap(int n)` (`nextPoT(n)` buckets): all chain heads null, count 0 -/
+/-- `HashMap()` (`defaultBuckets` buckets) / `HashMap(int n)` (`nextPoT(n)` buckets): all chain heads null, count 0 -/
 def empty (nb : Nat) : HM K V := ⟨List.replicate nb [], 0⟩
 
 /-- `binOf(key) - SKIP` : `hash(key) & (a.length() - SKIP - 1)` -/
@@ -74,12 +73,12 @@ def enum (m : HM K V) : List (K × V) := m.buckets.flatten
 def rehashInto (h : K → Nat) (nb : Nat) (es : List (K × V)) : List (List (K × V)) :=
   es.foldl (fun b kv => let bin := binOf h nb kv.1; b.set bin (b.getD bin [] ++ [kv])) (List.replicate nb [])
 
-/-- `void rehash()`: nothing below 7/8 fill (of `a.length()`, which includes the 2 header slots) or above
-280000 slots; otherwise an 8× larger table -/
+/-- `void rehash()`: nothing below `growNum/growDen` fill (of `a.length()`, which includes the header slots)
+or above `maxSlots` slots; otherwise a `growFactor`× larger table -/
 def rehash (h : K → Nat) (m : HM K V) : HM K V :=
-  let alen := m.buckets.length + 2
-  if m.n < alen * 7 / 8 ∨ alen > 280000 then m
-  else ⟨rehashInto h (m.buckets.length * 8) (enum m), m.n⟩
+  let alen := m.buckets.length + skip
+  if m.n < alen * growNum / growDen ∨ alen > maxSlots then m
+  else ⟨rehashInto h (m.buckets.length * growFactor) (enum m), m.n⟩
 
 /-- non-const `T& operator[](key)` (creates `(key, T())` when missing) -/
 def index (h : K → Nat) (dflt : V) (m : HM K V) (key : K) : HM K V :=
@@ -141,7 +140,7 @@ def sAddAll (h : K → Nat) (s other : HSet K) : HSet K :=
   (enum other).foldl (fun b kv => sIns h b kv.1) s
 
 /-- `Set(const Array<T>&)` -/
-def sFromList (h : K → Nat) (xs : List K) : HSet K := xs.foldl (sIns h) (empty 256)
+def sFromList (h : K → Nat) (xs : List K) : HSet K := xs.foldl (sIns h) (empty defaultBuckets)
 
 /-- `contains(const Set& s)` -/
 def sContainsAll (h : K → Nat) (a s : HSet K) : Bool := (enum s).all (fun kv => has h a kv.1)
@@ -154,14 +153,14 @@ def sEq (h : K → Nat) (a s : HSet K) : Bool := decide (a.n = s.n) && sContains
 
 /-- `notIn(s)` / `operator-` -/
 def sNotIn (h : K → Nat) (a s : HSet K) : HSet K :=
-  (enum a).foldl (fun b kv => if has h s kv.1 then b else sIns h b kv.1) (empty 256)
+  (enum a).foldl (fun b kv => if has h s kv.1 then b else sIns h b kv.1) (empty defaultBuckets)
 
 /-- `in(s)` / `operator&` -/
 def sIn (h : K → Nat) (a s : HSet K) : HSet K :=
-  (enum a).foldl (fun b kv => if has h s kv.1 then sIns h b kv.1 else b) (empty 256)
+  (enum a).foldl (fun b kv => if has h s kv.1 then sIns h b kv.1 else b) (empty defaultBuckets)
 
 /-- `operator+` : `Set b; b << *this << s;` -/
-def sUnion (h : K → Nat) (a s : HSet K) : HSet K := sAddAll h (sAddAll h (empty 256) a) s
+def sUnion (h : K → Nat) (a s : HSet K) : HSet K := sAddAll h (sAddAll h (empty defaultBuckets) a) s
 
 /-- `array()` -/
 def sArray (s : HSet K) : List K := (enum s).map (·.1)
@@ -171,10 +170,10 @@ def sArray (s : HSet K) : List K := (enum s).map (·.1)
 /-- `hash(int x) = x` -/
 def hashInt (x : Int) : Nat := (x % 4294967296).toNat
 
-/-- `hash(const String&)`: `h = 33*h + p[i]` over `char` (signed on this platform), 32-bit wrap-around -/
+/-- `hash(const String&)`: `h = hashMul*h + p[i]` over `char` (signed on this platform), 32-bit wrap-around -/
 def hashBytes (s : List UInt8) : Nat :=
   (s.foldl (fun (hh : Int) c =>
     let ci : Int := if c.toNat < 128 then c.toNat else (c.toNat : Int) - 256
-    (33 * hh + ci) % 4294967296) 0).toNat
+    (hashMul * hh + ci) % 4294967296) 0).toNat
 
 end AslModel.HashMap
